@@ -193,6 +193,8 @@ CLAIMED["C13"]["text"] += (" The capacity-checked append read into unset_header 
 CLAIMED["C16"]["text"] += (" The vector behind the added headers: the translated src/util.rs ArrayVec::push appends on the visible part and panics exactly when full, for any capacity (c16_code_arrayvec_push_capped).")
 CLAIMED["C14"]["text"] += (" AmendedRequest::set_header itself is translated (conversions validated, name lower-cased, ArrayVec::push) and equals the reading used above; that push is the translated src/util.rs ArrayVec::push (c14_code_set_header, c14_code_capped_push).")
 CLAIMED["C13"]["text"] += (" AmendedRequest::unset_header itself is translated and equals the reading used above for the three names the redirect passes (c13_code_unset_header, c13_code_unset_header_invalid).")
+CLAIMED["C19"]["text"] += (" BodyWriter::write itself (with its chunk loop) is translated from src/body.rs on every run and proved to produce the model's result for every mode, flag, input and capacity (c19_code_write_equiv, proofs/Gen2_equiv_writer.v), so the progress theorems are about the code.")
+CLAIMED["C19"]["technique"] += " + the code's own functions translated to Gallina on every run and proved equivalent to the model"
 for _p in ("C02", "C03", "C04", "C06", "C07", "C08", "C09", "C10", "C11", "C12", "C13", "C16", "C17", "C18"):
     CLAIMED[_p]["technique"] += " + the code's own functions translated to Gallina on every run and proved equivalent to the model"
 
